@@ -114,12 +114,14 @@ def run(out, prop, tier, seed, **kw):
         traces.append(r)
         out.evaluations += 1
         out.distinct.add(json.dumps([r['toks'], r['fills']]))
-    path = os.path.join(scratch, 'traces.json')
-    with open(path, 'w') as fh:
-        json.dump([{k: v for k, v in t.items() if k != 'text'} for t in traces], fh)
-    vres = tlc.run('SyntaxTrace', 't.cfg', files={'t.cfg': CFG % (9, 9, 'Reps', 'TInit', 'TNext') + 'INVARIANT Report\n'}, env={'TRACE_FILE': path}, workers=8, timeout=3000)
-    out.add_tlc(vres, 'SyntaxTrace')
-    verdicts = {v['id']: v for v in vres.exports}
+    verdicts = {}
+    for lo in range(0, len(traces), 4000):          # batches of 4000 traces per TLC run
+        path = os.path.join(scratch, 'traces.json')
+        with open(path, 'w') as fh:
+            json.dump([{k: v for k, v in t.items() if k != 'text'} for t in traces[lo:lo + 4000]], fh)
+        vres = tlc.run('SyntaxTrace', 't.cfg', files={'t.cfg': CFG % (9, 9, 'Reps', 'TInit', 'TNext') + 'INVARIANT Report\n'}, env={'TRACE_FILE': path}, workers=8, timeout=6000)
+        out.add_tlc(vres, 'SyntaxTrace/%d' % lo)
+        verdicts.update({v['id']: v for v in vres.exports})
     for t in traces:
         v = verdicts.get(t['id'])
         if v is None:
